@@ -7,7 +7,7 @@ numpy can reject produce ``no_raise`` obligations.
 import ast
 import z3
 
-from .core import (Sym, Arr, Arr2, LArr, SList, PyList, ObjRec, Ref, ClassVal,
+from .core import (Sym, Arr, Arr2, LArr, SList, PyList, FlatList, ObjRec, Ref, ClassVal,
                    Opaque, OutsideSubset, Raised, fresh, fresh_fn, uid, I, B,
                    concrete_int, concrete_bool, kind_of, sort_of)
 from . import arrays as A
@@ -65,6 +65,8 @@ def install(reg):
         v = d_(ex, st, args[0])
         if isinstance(v, (Arr, LArr, SList)):
             return Sym(v.n, 'int')
+        if isinstance(v, FlatList):
+            return Sym(v.cnt, 'int')
         if isinstance(v, Arr2):
             return Sym(v.nr, 'int')
         if isinstance(v, PyList):
@@ -500,6 +502,10 @@ def install(reg):
             hk = reg.concat_hook
             if hk is not None:
                 return hk(ex, st, arrs, kw, node)
+        if isinstance(v, FlatList):
+            # numpy raises on an empty list
+            ex.need(st)('concatenate_nonempty', v.cnt >= 1)
+            return st.alloc(v.flat, 'cat')
         if isinstance(v, LArr):
             # numpy raises on an empty list
             ex.need(st)('concatenate_nonempty', v.n >= 1)
@@ -646,7 +652,7 @@ def install(reg):
             raise OutsideSubset('argsort', node)
         p, q = A.permutation(st, v.n, 'argsort')
         i, j = A.qi('i'), A.qi('j')
-        st.assume(z3.ForAll([i, j], z3.Implies(
+        st.assume(A.QForAll([i, j], z3.Implies(
             z3.And(i >= 0, i <= j, j < v.n), v.at(p(i)) <= v.at(p(j))),
             patterns=[z3.MultiPattern(p(i), p(j))]))
         return st.alloc(Arr(v.n, lambda t: p(t), 'int',
@@ -659,7 +665,7 @@ def install(reg):
             raise OutsideSubset('sort', node)
         p, q = A.permutation(st, v.n, 'sort')
         i, j = A.qi('i'), A.qi('j')
-        st.assume(z3.ForAll([i, j], z3.Implies(
+        st.assume(A.QForAll([i, j], z3.Implies(
             z3.And(i >= 0, i <= j, j < v.n), v.at(p(i)) <= v.at(p(j))),
             patterns=[z3.MultiPattern(p(i), p(j))]))
         return st.alloc(Arr(v.n, lambda t: v.at(p(t)), v.k,
@@ -779,10 +785,10 @@ def install(reg):
         ex.need(st)('choice_size', z3.And(n_t >= 0, n_t <= a.n))
         pos = fresh_fn(['int'], 'int', 'chpos')
         i, j = A.qi('i'), A.qi('j')
-        st.assume(z3.ForAll([i], z3.Implies(
+        st.assume(A.QForAll([i], z3.Implies(
             z3.And(i >= 0, i < n_t), z3.And(pos(i) >= 0, pos(i) < a.n)),
             patterns=[pos(i)]))
-        st.assume(z3.ForAll([i, j], z3.Implies(
+        st.assume(A.QForAll([i, j], z3.Implies(
             z3.And(i >= 0, i < j, j < n_t), pos(i) != pos(j)),
             patterns=[z3.MultiPattern(pos(i), pos(j))]))
         return st.alloc(Arr(n_t, lambda t: a.at(pos(t)), a.k,
@@ -835,15 +841,15 @@ class RepeatInfo:
         st.assume(tot >= 0)
         st.assume(off(0) == 0)
         st.assume(off(reps.n) == tot)
-        st.assume(z3.ForAll([i], z3.Implies(
+        st.assume(A.QForAll([i], z3.Implies(
             z3.And(i >= 0, i < reps.n), off(i + 1) == off(i) + reps.at(i)),
             patterns=[off(i)]))
-        st.assume(z3.ForAll([j], z3.Implies(
+        st.assume(A.QForAll([j], z3.Implies(
             z3.And(j >= 0, j < tot),
             z3.And(src(j) >= 0, src(j) < reps.n, off(src(j)) <= j,
                    j < off(src(j)) + reps.at(src(j)))), patterns=[src(j)]))
         k = A.qi('k')
-        st.assume(z3.ForAll([j, k], z3.Implies(
+        st.assume(A.QForAll([j, k], z3.Implies(
             z3.And(j >= 0, j <= k, k < tot), src(j) <= src(k)),
             patterns=[z3.MultiPattern(src(j), src(k))]))
         st.assume(tot == sum_int(st, reps))
